@@ -3,23 +3,35 @@
    Statements only; every proof is `exact <lemma>`.  The theorems quantify over ALL event sequences of Handover.v. *)
 From Repid Require Import Base Handover HandoverProofs.
 
-(* once finish() has returned, every message is back in its queue, dead-lettered or with the caller - or on one of two ways
-   that end there by themselves (a shielded nack on the wire; a consume() call in progress that is about to deliver).
-   The one exception is named: a consume() call cancelled while handing a message over AFTER finish() had collected *)
+(* once finish() has returned, every message is back in its queue, dead-lettered or with the caller - or on a way that ends
+   there by itself (a shielded nack on the wire; a RabbitMQ delivery being bounced, or pushed a moment ago and about to be;
+   a consume() call in progress that is about to deliver).  The one exception is named: a consume() call cancelled while
+   handing a message over AFTER finish() had collected *)
 Theorem C03_handover_finish_clean : forall msgs expired pushing es s,
   hrun (hinit msgs expired pushing) es = Some s -> phase s = PDone ->
   forall m, In m msgs ->
-    cust s m = CQueue \/ cust s m = CDead \/ cust s m = CCaller \/ cust s m = CNacking \/
+    cust s m = CQueue \/ cust s m = CDead \/ cust s m = CCaller \/ cust s m = CNacking \/ cust s m = CBouncing \/
+    (cust s m = CTaking1 /\ push s = true) \/
     (cust s m = CReturning /\ call s = true) \/ (cust s m = CUndelivered /\ late s = true).
 Proof. exact handover_finish_clean. Qed.
 
 (* under the worker's discipline (the queue loops have ended before the consumers are finished: no call in progress, none
-   cancelled late) and with the nacks settled, nothing is in flight but what a caller received *)
+   cancelled late) and with the nacks and bounces settled, nothing is in flight but what a caller received *)
 Theorem C03_handover_quiescent : forall msgs expired pushing es s,
   hrun (hinit msgs expired pushing) es = Some s -> phase s = PDone -> call s = false -> late s = false ->
-  (forall m, In m msgs -> cust s m <> CNacking) ->
+  (forall m, In m msgs -> cust s m <> CNacking /\ cust s m <> CBouncing /\ cust s m <> CTaking1) ->
   forall m, In m msgs -> cust s m = CQueue \/ cust s m = CDead \/ cust s m = CCaller.
 Proof. exact handover_quiescent. Qed.
+
+(* the transitional custodies are never resting places *)
+Theorem C03_handover_bouncing_progress : forall s m, In m (ms s) -> cust s m = CBouncing ->
+  exists s', hstep s (HBounceDone m) = Some s' /\ cust s' m = CQueue.
+Proof. exact bouncing_progress. Qed.
+
+Theorem C03_handover_pushed_after_finish_bounces : forall s m, In m (ms s) -> push s = true -> cust s m = CTaking1 -> bgrun s = false ->
+  hstep s (HPushDone m) = None /\ hstep s (HTakeDone m) = None /\
+  exists s', hstep s (HBounce m) = Some s' /\ cust s' m = CBouncing.
+Proof. exact pushed_after_finish_bounces. Qed.
 
 (* the invariant behind them, step by step *)
 Theorem C03_handover_invariant_step : forall s e s', HInv s -> hstep s e = Some s' -> HInv s'.
@@ -49,7 +61,18 @@ Theorem C03_handover_example :
             /\ phase s = PDone /\ map (cust s) [1; 2; 3] = [CQueue; CQueue; CQueue] /\ late s = false.
 Proof. exact collect_covers_taken. Qed.
 
+(* RabbitMQ flavour of the example *)
+Theorem C03_handover_push_example :
+  exists s, hrun (hinit [1; 2; 3] [] true)
+              [HPushStart 1; HPushDone 1; HPushStart 2; HPushDone 2; HCallStart; HCallGet 1; HCancelCall; HPushStart 3; HFinStart;
+               HBounce 3; HFinCollect; HRejectDone 1; HRejectDone 2; HFinDone; HBounceDone 3] = Some s
+            /\ phase s = PDone /\ map (cust s) [1; 2; 3] = [CQueue; CQueue; CQueue] /\ late s = false.
+Proof. exact push_collect_example. Qed.
+
 Print Assumptions C03_handover_finish_clean.
+Print Assumptions C03_handover_bouncing_progress.
+Print Assumptions C03_handover_pushed_after_finish_bounces.
+Print Assumptions C03_handover_push_example.
 Print Assumptions C03_handover_quiescent.
 Print Assumptions C03_handover_invariant_step.
 Print Assumptions C03_handover_late_only_by_late_cancel.
